@@ -73,7 +73,15 @@ class KDTree:
                 self.nodes.append(leaf)
             else: # the leaf needs to be split
                 # split the points according to the current axis
-                split_value, pts_less, pts_more = self._split_points(leaf.points, leaf.split_axis)
+                for _ in range(self.dim):
+                    split_value, pts_less, pts_more = self._split_points(leaf.points, leaf.split_axis)
+                    if pts_less.size>0 and pts_more.size>0: break
+                    # all points have the same coordinate along this axis -> try the next one
+                    leaf.split_axis = (leaf.split_axis + 1)%self.dim
+                else:
+                    # all points are identical and cannot be separated -> keep them in a single leaf
+                    self.nodes.append(leaf)
+                    continue
                 
                 # we create a new node to replace the original leaf and append two leaves that will be its children
                 node = KDTree.Node(leaf.id, leaf.split_axis, parent=leaf.parent, bb=leaf.bb, split_value=split_value)
@@ -103,6 +111,10 @@ class KDTree:
         pts_ax = self.points[pt_idx,axis] # 1D array of the considered coordinate to split 
         pivot = self._find_pivot(pts_ax)
         pivot_filter = pts_ax <= pivot
+        if pivot_filter.all():
+            # the pivot is the maximal value: send the points equal to the pivot to the 'more' side
+            # so that both sides are non empty (unless all values are equal)
+            pivot_filter = pts_ax < pivot
         idx_less = np.extract(pivot_filter, pt_idx)
         idx_more = np.extract(~pivot_filter, pt_idx)
         return pivot, idx_less, idx_more
